@@ -39,6 +39,12 @@ func readMemArg(pc uint64, body []byte) (align, offset uint32, read uint64, err 
 		err = fmt.Errorf("read memory align: %v", err)
 		return
 	}
+	// The callers compare 1<<align with the natural alignment in (64-bit) int arithmetic: an exponent of
+	// 63 makes the left side negative and larger ones make it zero, so without this check they pass.
+	if align >= 32 {
+		err = fmt.Errorf("invalid memory alignment: 2^%d", align)
+		return
+	}
 	read += num
 
 	offset, num, err = leb128.LoadUint32(body[pc+num:])
